@@ -103,6 +103,7 @@ class FnQ:
         self.fn = fn
         self.ev = Ev(w.prog, fn)
         self.cfg = Cfg(w.prog, fn, self.ev)
+        self.cfg.dead_edges()      # (constant conditions: unreachable definitions are dropped from the evaluator before any value is read)
         self._calls = None
         self._writes = None
 
